@@ -22,8 +22,11 @@ import (
 // Script ops (stateless; byte strings as x<hex>, "-" = not given):
 //   parse <v>                         parseSemver                      -> "ok M m p" | "err"
 //   set <v>                           Server.SetProtocolVersion        -> "unset" | "set M m p <text>" | "panic"
-//   check <server|-> <client|->       the guard + checkProtocolVersion -> "allow" | "refuse:<direction>" | "panic"
-//   call <pipe|http> <server|-> <describe|unary|producer|exchange> <client|->
+//   hist <v1,v2,…>                    a HISTORY of SetProtocolVersion calls on one server -> per-call result + final state
+//   check <hist|-> <client|->         the guard + checkProtocolVersion after that history -> "allow" | "refuse:<direction>"
+//   call <pipe|http> <hist|-> <describe|unary|producer|exchange> <client|-> [flaw]
+//        flaw = one OTHER defect of the same request (params-extra/renamed/retyped, rows0, rows2, unknown-method,
+//        no-method-key, bad-request-version, route-mismatch, wrong-route-kind, content-type): "other-error" when it wins
 //        a real request through Server.Serve (pipe) or HttpServer.ServeHTTP (unary route /{m},
 //        stream-init route /{m}/init): "dispatched" (the handler ran / describe answered) or
 //        "refused kind=<vgi_rpc.error_kind> dir=<direction class of the message>"
@@ -43,7 +46,7 @@ func init() {
 				if len(f) == 3 && f[0] == "check" && f[1] != "-" && f[1] != "x" && f[2] != "-" {
 					return true
 				}
-				if len(f) == 5 && f[0] == "call" && f[2] != "-" && f[2] != "x" && f[4] != "-" {
+				if len(f) >= 5 && f[0] == "call" && f[2] != "-" && f[2] != "x" && f[4] != "-" {
 					return true
 				}
 			}
@@ -213,18 +216,63 @@ func c10Client(r *Rng, server string) string {
 	}
 }
 
-func c10Server(r *Rng) string {
+func c10Server1(r *Rng) string {
 	switch x := r.Intn(100); {
-	case x < 12:
-		return "-" // no SetProtocolVersion call
-	case x < 16:
+	case x < 6:
 		return XS("") // SetProtocolVersion("") opts out
-	case x < 24:
+	case x < 16:
 		return XS(Pick(r, []string{"1.0.0", "0.0.0", "0.1.0", "2.5.7", "10.20.30", "1.2.0"}))
 	default:
 		return XS(c10Canonical(r))
 	}
 }
+
+// c10Server returns a configuration history: "-" (no call) or a comma list of SetProtocolVersion arguments
+// (declare, re-declare, clear with "", invalid values that panic, repeats).
+func c10Server(r *Rng) string {
+	switch x := r.Intn(100); {
+	case x < 10:
+		return "-"
+	case x < 60:
+		return c10Server1(r)
+	}
+	n := r.Range(2, 4)
+	var calls []string
+	for i := 0; i < n; i++ {
+		switch y := r.Intn(100); {
+		case y < 30:
+			calls = append(calls, XS(""))
+		case y < 50:
+			calls = append(calls, XS(c10Malform(r, c10Canonical(r))))
+		case y < 60 && len(calls) > 0:
+			calls = append(calls, calls[r.Intn(len(calls))])
+		default:
+			calls = append(calls, c10Server1(r))
+		}
+	}
+	return strings.Join(calls, ",")
+}
+
+// c10Effective is the reference reading of a history: the last call that is "" or canonical decides.
+func c10Effective(hist string) (declared bool, version string) {
+	if hist == "-" {
+		return false, ""
+	}
+	for _, h := range strings.Split(hist, ",") {
+		v := UnXS(h)
+		if v == "" {
+			declared, version = false, ""
+		} else if _, _, ok := c10Ref(v); ok {
+			declared, version = true, v
+		}
+	}
+	return declared, version
+}
+
+var c10Flaws = []string{"params-extra", "params-renamed", "params-retyped", "rows0", "rows2", "unknown-method", "no-method-key",
+	"bad-request-version", "route-mismatch", "wrong-route-kind", "content-type"}
+
+func c10FlawLate(f string) bool { return strings.HasPrefix(f, "params-") }
 
 func c10Gen(g *Gen) {
 	// a well-mixed sub-stream: the framework's seeds are shifted copies of one splitmix stream
@@ -233,19 +281,19 @@ func c10Gen(g *Gen) {
 	for i := 0; i < n; i++ {
 		var lines []string
 		sv := c10Server(r)
-		st := ""
-		if sv != "-" {
-			st = UnXS(sv)
-		}
+		_, st := c10Effective(sv)
 		// the decision functions, many clients against this server
 		for k := r.Range(3, 8); k > 0; k-- {
 			lines = append(lines, "check "+sv+" "+c10Client(r, st))
 		}
-		if sv != "-" && r.Chance(30) {
-			lines = append(lines, "set "+sv)
+		if sv != "-" && r.Chance(40) {
+			lines = append(lines, "hist "+sv)
 		}
 		if r.Chance(25) { // invalid server configuration
 			lines = append(lines, "set "+XS(c10Malform(r, c10Canonical(r))))
+		}
+		if r.Chance(25) {
+			lines = append(lines, "set "+c10Server1(r))
 		}
 		for k := r.Range(1, 3); k > 0; k-- {
 			v := c10Near(r, st)
@@ -254,11 +302,21 @@ func c10Gen(g *Gen) {
 			}
 			lines = append(lines, "parse "+XS(v))
 		}
-		// real requests
-		for k := r.Range(1, 2); k > 0; k-- {
+		// real requests, the version dimension crossed with every other refusal a request can earn
+		for k := r.Range(1, 3); k > 0; k-- {
 			route := Pick(r, []string{"pipe", "http"})
 			kind := Pick(r, []string{"unary", "unary", "producer", "exchange", "describe"})
-			lines = append(lines, fmt.Sprintf("call %s %s %s %s", route, sv, kind, c10Client(r, st)))
+			flaw := "none"
+			if kind != "describe" && r.Chance(55) {
+				flaw = Pick(r, c10Flaws)
+				if r.Chance(50) {
+					flaw = Pick(r, []string{"params-extra", "params-renamed", "params-retyped"})
+				}
+				if route == "pipe" && (flaw == "route-mismatch" || flaw == "wrong-route-kind" || flaw == "content-type") {
+					flaw = "unknown-method"
+				}
+			}
+			lines = append(lines, fmt.Sprintf("call %s %s %s %s %s", route, sv, kind, c10Client(r, st), flaw))
 		}
 		g.Case(lines...)
 	}
@@ -362,7 +420,7 @@ func init() {
 }
 
 // c10NewServer builds a server with one method of every kind; *ran counts handler entries.
-func c10NewServer(sv string, ran *int) (s *vgirpc.Server, panicked bool) {
+func c10NewServer(hist string, ran *int) (s *vgirpc.Server, steps []string) {
 	s = vgirpc.NewServer()
 	vgirpc.Unary(s, "u", func(_ context.Context, _ *vgirpc.CallContext, p c10Params) (int64, error) {
 		*ran++
@@ -376,17 +434,32 @@ func c10NewServer(sv string, ran *int) (s *vgirpc.Server, panicked bool) {
 		*ran++
 		return &vgirpc.StreamResult{OutputSchema: c10Schema, InputSchema: c10Schema, State: &c10Exchanger{}}, nil
 	})
-	if sv != "-" {
-		func() {
-			defer func() {
-				if recover() != nil {
-					panicked = true
-				}
-			}()
-			s.SetProtocolVersion(UnXS(sv))
-		}()
+	if hist != "-" {
+		for _, h := range strings.Split(hist, ",") {
+			v := UnXS(h)
+			steps = append(steps, c10SetOnce(s, v))
+		}
 	}
-	return s, panicked
+	return s, steps
+}
+
+// c10SetOnce performs one SetProtocolVersion call and renders what it did.
+func c10SetOnce(s *vgirpc.Server, v string) (out string) {
+	defer func() {
+		if recover() != nil {
+			out = "panic"
+		}
+	}()
+	s.SetProtocolVersion(v)
+	return c10State(s)
+}
+
+func c10State(s *vgirpc.Server) string {
+	set, text, parts := s.VerifC10Declared()
+	if !set {
+		return "unset"
+	}
+	return fmt.Sprintf("set %s %s %s %s", parts[0], parts[1], parts[2], XS(text))
 }
 
 func c10IPC(schema *arrow.Schema, rows int, meta arrow.Metadata, withBatch bool) []byte {
@@ -395,6 +468,15 @@ func c10IPC(schema *arrow.Schema, rows int, meta arrow.Metadata, withBatch bool)
 	if withBatch {
 		cols := make([]arrow.Array, schema.NumFields())
 		for i := range cols {
+			if schema.Field(i).Type.ID() == arrow.STRING {
+				b := array.NewStringBuilder(memory.NewGoAllocator())
+				for k := 0; k < rows; k++ {
+					b.Append("seven")
+				}
+				cols[i] = b.NewArray()
+				b.Release()
+				continue
+			}
 			b := array.NewInt64Builder(memory.NewGoAllocator())
 			for k := 0; k < rows; k++ {
 				b.Append(int64(7 + k))
@@ -417,9 +499,24 @@ func c10IPC(schema *arrow.Schema, rows int, meta arrow.Metadata, withBatch bool)
 	return buf.Bytes()
 }
 
-func c10Request(method string, client string, present bool) []byte {
-	keys := []string{vgirpc.MetaMethod, vgirpc.MetaRequestVersion}
-	vals := []string{method, vgirpc.ProtocolVersion}
+// c10Request frames a request; flaw adds one other defect (see c10Flaws).
+func c10Request(method string, client string, present bool, flaw string) []byte {
+	mm := method
+	switch flaw {
+	case "unknown-method":
+		mm = "nope"
+	case "route-mismatch":
+		mm = "other"
+	}
+	rv := vgirpc.ProtocolVersion
+	if flaw == "bad-request-version" {
+		rv = "2"
+	}
+	var keys, vals []string
+	if flaw != "no-method-key" {
+		keys, vals = append(keys, vgirpc.MetaMethod), append(vals, mm)
+	}
+	keys, vals = append(keys, vgirpc.MetaRequestVersion), append(vals, rv)
 	if present {
 		keys = append(keys, vgirpc.MetaProtocolVersion)
 		vals = append(vals, client)
@@ -428,7 +525,20 @@ func c10Request(method string, client string, present bool) []byte {
 	if method == "__describe__" {
 		schema = arrow.NewSchema(nil, nil)
 	}
-	return c10IPC(schema, 1, arrow.NewMetadata(keys, vals), true)
+	rows := 1
+	switch flaw {
+	case "params-extra":
+		schema = arrow.NewSchema([]arrow.Field{{Name: "x", Type: arrow.PrimitiveTypes.Int64}, {Name: "y", Type: arrow.PrimitiveTypes.Int64}}, nil)
+	case "params-renamed":
+		schema = arrow.NewSchema([]arrow.Field{{Name: "z", Type: arrow.PrimitiveTypes.Int64}}, nil)
+	case "params-retyped":
+		schema = arrow.NewSchema([]arrow.Field{{Name: "x", Type: arrow.BinaryTypes.String}}, nil)
+	case "rows0":
+		rows = 0
+	case "rows2":
+		rows = 2
+	}
+	return c10IPC(schema, rows, arrow.NewMetadata(keys, vals), true)
 }
 
 // c10Scan walks every IPC stream in a response and returns the first error batch's kind and message.
@@ -503,65 +613,78 @@ func c10Exec(c *Case) {
 				c.Out(l, fmt.Sprintf("ok %s %s %s", a, b, p))
 			}
 		case f[0] == "set" && len(f) == 2:
-			ran := 0
-			s, panicked := c10NewServer(f[1], &ran)
+			s := vgirpc.NewServer()
 			v := UnXS(f[1])
 			_, _, canon := c10Ref(v)
-			if panicked {
+			obs := c10SetOnce(s, v)
+			switch {
+			case obs == "panic":
 				c.Stat("set-panic")
 				if v == "" || canon {
 					c.Oracle("set-panics-on-valid", fmt.Sprintf("SetProtocolVersion(%q) panicked", v))
 				}
-				c.Out(l, "panic")
-				continue
-			}
-			set, text, parts := s.VerifC10Declared()
-			if !set {
+			case obs == "unset":
 				c.Stat("set-unset")
 				if v != "" {
 					c.Oracle("set-accepts-invalid", fmt.Sprintf("SetProtocolVersion(%q) left the gate off", v))
 				}
-				c.Out(l, "unset")
-			} else {
+			default:
 				c.Stat("set-ok")
 				if !canon {
 					c.Oracle("set-accepts-invalid", fmt.Sprintf("SetProtocolVersion(%q) accepted a non-canonical version", v))
 				}
-				c.Out(l, fmt.Sprintf("set %s %s %s %s", parts[0], parts[1], parts[2], XS(text)))
 			}
+			c.Out(l, obs)
+		case f[0] == "hist" && len(f) == 2:
+			ran := 0
+			s, steps := c10NewServer(f[1], &ran)
+			final := c10State(s)
+			// the state must be what the last effective call declared
+			declared, ver := c10Effective(f[1])
+			if set, text, _ := s.VerifC10Declared(); set != declared || (declared && text != ver) {
+				c.Oracle("history-state-not-last-declaration", fmt.Sprintf("%s: after the calls the server is %q, the last effective declaration is declared=%v %q", l, final, declared, ver))
+			}
+			for i := range steps {
+				steps[i] = strings.ReplaceAll(steps[i], " ", ":")
+			}
+			c.Stat("hist")
+			c.Out(l, strings.TrimSpace(strings.Join(steps, " ")+" final="+strings.ReplaceAll(final, " ", ":")))
 		case f[0] == "check" && len(f) == 3:
 			ran := 0
-			s, panicked := c10NewServer(f[1], &ran)
-			if panicked {
-				c.Stat("check-server-panic")
-				c.Out(l, "panic")
-				continue
-			}
+			s, _ := c10NewServer(f[1], &ran)
 			present := f[2] != "-"
 			cv := ""
 			if present {
 				cv = UnXS(f[2])
 			}
-			pverr := s.VerifC10Check(cv, present)
 			obs := "allow"
-			if pverr != nil {
-				obs = "refuse:" + c10Direction(pverr.Message)
-				if pverr.ErrorKind() != "protocol_version_mismatch" {
-					c.Oracle("refusal-wrong-error-kind", fmt.Sprintf("%s: kind %q", l, pverr.ErrorKind()))
+			func() {
+				defer func() {
+					if r := recover(); r != nil {
+						obs = "panic"
+						c.Oracle("gate-panicked@check", fmt.Sprintf("%s: %v", l, r))
+					}
+				}()
+				if pverr := s.VerifC10Check(cv, present); pverr != nil {
+					obs = "refuse:" + c10Direction(pverr.Message)
+					if pverr.ErrorKind() != "protocol_version_mismatch" {
+						c.Oracle("refusal-wrong-error-kind", fmt.Sprintf("%s: kind %q", l, pverr.ErrorKind()))
+					}
 				}
+			}()
+			if obs != "panic" {
+				c10Oracle(c, l, "check", f[1], false, cv, present, "none", obs == "allow", false, strings.TrimPrefix(obs, "refuse:"))
 			}
-			c10Oracle(c, l, "check", f[1], false, cv, present, obs == "allow", strings.TrimPrefix(obs, "refuse:"))
 			c.Stat("check-" + obs)
 			c.Out(l, obs)
-		case f[0] == "call" && len(f) == 5:
+		case f[0] == "call" && (len(f) == 5 || len(f) == 6):
 			route, sv, kind := f[1], f[2], f[3]
-			ran := 0
-			s, panicked := c10NewServer(sv, &ran)
-			if panicked {
-				c.Stat("call-server-panic")
-				c.Out(l, "panic")
-				continue
+			flaw := "none"
+			if len(f) == 6 {
+				flaw = f[5]
 			}
+			ran := 0
+			s, _ := c10NewServer(sv, &ran)
 			present := f[4] != "-"
 			cv := ""
 			if present {
@@ -572,37 +695,64 @@ func c10Exec(c *Case) {
 				c.Out(l, "err:bad-op")
 				continue
 			}
-			req := c10Request(method, cv, present)
+			req := c10Request(method, cv, present, flaw)
 			var resp []byte
 			status := 0
-			if route == "pipe" {
-				in := append([]byte{}, req...)
-				switch kind {
-				case "producer": // one tick
-					in = append(in, c10IPC(arrow.NewSchema(nil, nil), 0, arrow.Metadata{}, true)...)
-				case "exchange": // one input batch
-					in = append(in, c10IPC(c10Schema, 1, arrow.Metadata{}, true)...)
+			panicked := ""
+			func() {
+				defer func() {
+					if r := recover(); r != nil {
+						panicked = fmt.Sprint(r)
+					}
+				}()
+				if route == "pipe" {
+					in := append([]byte{}, req...)
+					switch kind {
+					case "producer": // one tick
+						in = append(in, c10IPC(arrow.NewSchema(nil, nil), 0, arrow.Metadata{}, true)...)
+					case "exchange": // one input batch
+						in = append(in, c10IPC(c10Schema, 1, arrow.Metadata{}, true)...)
+					}
+					var out bytes.Buffer
+					s.Serve(bytes.NewReader(in), &out)
+					resp = out.Bytes()
+				} else {
+					h := vgirpc.NewHttpServer(s)
+					h.InitPages()
+					pm := method
+					if flaw == "unknown-method" {
+						pm = "nope"
+					}
+					path := "/" + pm
+					streamRoute := kind == "producer" || kind == "exchange"
+					if flaw == "wrong-route-kind" {
+						streamRoute = !streamRoute
+					}
+					if streamRoute {
+						path += "/init"
+					}
+					hr := httptest.NewRequest(http.MethodPost, path, bytes.NewReader(req))
+					ct := "application/vnd.apache.arrow.stream"
+					if flaw == "content-type" {
+						ct = "text/plain"
+					}
+					hr.Header.Set("Content-Type", ct)
+					w := httptest.NewRecorder()
+					h.ServeHTTP(w, hr)
+					resp = w.Body.Bytes()
+					status = w.Code
 				}
-				var out bytes.Buffer
-				s.Serve(bytes.NewReader(in), &out)
-				resp = out.Bytes()
-			} else {
-				h := vgirpc.NewHttpServer(s)
-				h.InitPages()
-				path := "/" + method
-				if kind == "producer" || kind == "exchange" {
-					path += "/init"
-				}
-				hr := httptest.NewRequest(http.MethodPost, path, bytes.NewReader(req))
-				hr.Header.Set("Content-Type", "application/vnd.apache.arrow.stream")
-				w := httptest.NewRecorder()
-				h.ServeHTTP(w, hr)
-				resp = w.Body.Bytes()
-				status = w.Code
+			}()
+			site := route + "-" + kind
+			if panicked != "" {
+				c.Oracle("gate-panicked@"+site, fmt.Sprintf("%s: %s", l, panicked))
+				c.Stat("call-" + site + "-panic")
+				c.Out(l, "panic")
+				continue
 			}
 			errKind, msg, isErr, streams := c10Scan(resp)
 			var obs string
-			dispatched := false
+			dispatched, other := false, false
 			switch {
 			case isErr && errKind == "protocol_version_mismatch":
 				obs = "refused kind=" + errKind + " dir=" + c10Direction(msg)
@@ -612,8 +762,11 @@ func c10Exec(c *Case) {
 				if route == "http" && status != http.StatusBadRequest {
 					obs += fmt.Sprintf(" status=%d", status)
 				}
-			case isErr:
-				obs = "error kind=" + errKind + " msg=" + XS(msg)
+			case isErr || status >= 400:
+				obs, other = "other-error", true
+				if strings.Contains(msg, "nil pointer") || strings.Contains(msg, "panicked") {
+					c.Oracle("gate-panicked@"+site, fmt.Sprintf("%s: %s", l, msg))
+				}
 			case kind == "describe" && streams >= 1:
 				obs, dispatched = "dispatched", true
 			case ran == 1:
@@ -625,8 +778,11 @@ func c10Exec(c *Case) {
 			if i := strings.Index(obs, " dir="); i >= 0 {
 				dir = strings.Fields(obs[i+5:])[0]
 			}
-			c10Oracle(c, l, route+"-"+kind, sv, kind == "describe", cv, present, dispatched, dir)
-			c.Stat("call-" + route + "-" + kind + "-" + strings.Fields(obs)[0])
+			c10Oracle(c, l, site, sv, kind == "describe", cv, present, flaw, dispatched, other, dir)
+			c.Stat("call-" + site + "-" + strings.Fields(obs)[0])
+			if flaw != "none" {
+				c.Stat("flaw-" + flaw + "-" + strings.Fields(obs)[0])
+			}
 			c.Out(l, obs)
 		default:
 			c.Out(l, "err:bad-op")
@@ -634,14 +790,31 @@ func c10Exec(c *Case) {
 	}
 }
 
-// c10Oracle states the property on the real outcome. site names the call site (check / route-kind).
-func c10Oracle(c *Case, line, site, sv string, isDescribe bool, cv string, present, dispatched bool, dir string) {
-	declared := sv != "-" && sv != "x"
+// c10Oracle states the property on the real outcome. site names the call site (check / route-kind); hist is the
+// configuration history (judged by its LAST effective declaration); flaw is the request's other defect.
+func c10Oracle(c *Case, line, site, hist string, isDescribe bool, cv string, present bool, flaw string, dispatched, other bool, dir string) {
+	declared, ver := c10Effective(hist)
 	want := "admit"
 	if declared && !isDescribe {
-		want = c10Expect(UnXS(sv), cv, present)
+		want = c10Expect(ver, cv, present)
+	}
+	if flaw != "none" && !c10FlawLate(flaw) {
+		// a defect the current code reports before it reaches the guard (framing, unknown method, route):
+		// the property does not order these against the version; the precedence is tied by the correspondence
+		return
 	}
 	switch {
+	case want == "admit" && flaw != "none":
+		// admitted version + unbindable parameters: a binding error, never a dispatch
+		if dispatched {
+			c.Oracle("dispatched-with-unbindable-params@"+site, fmt.Sprintf("%s: handler ran", line))
+		} else if !other {
+			cls := "refused-though-same-major-minor"
+			if !declared {
+				cls = "refused-with-no-declared-version"
+			}
+			c.Oracle(cls+"@"+site, fmt.Sprintf("%s: expected the parameter-binding error, got a version refusal (%s)", line, dir))
+		}
 	case want == "admit" && !dispatched:
 		cls := "refused-though-same-major-minor"
 		if isDescribe {
@@ -652,6 +825,8 @@ func c10Oracle(c *Case, line, site, sv string, isDescribe bool, cv string, prese
 		c.Oracle(cls+"@"+site, fmt.Sprintf("%s: expected dispatch, got refusal (%s)", line, dir))
 	case want != "admit" && dispatched:
 		c.Oracle("dispatched-though-"+want+"@"+site, fmt.Sprintf("%s: dispatched although the client version is %s", line, want))
+	case want != "admit" && other:
+		c.Oracle("version-refusal-masked-by-"+flaw+"@"+site, fmt.Sprintf("%s: the client version is %s but the answer is another error, not protocol_version_mismatch", line, want))
 	case want != "admit" && dir != want:
 		c.Oracle("wrong-direction-"+want+"@"+site, fmt.Sprintf("%s: message direction %q, expected %q", line, dir, want))
 	}
